@@ -2,6 +2,7 @@ package sim
 
 import (
 	"fmt"
+	"reflect"
 	"sync"
 	"sync/atomic"
 	"testing/synctest"
@@ -68,6 +69,7 @@ type Task struct {
 	Panic        any // non-sentinel panic that ended the task
 	Client       bool
 	fn           func()
+	Route        any // inherited by spawned tasks (the workload instance the task belongs to)
 }
 
 // Decision is one scheduling decision, kept for replay files and trace hashes.
@@ -98,7 +100,10 @@ type Run struct {
 	kick     chan struct{}
 	aborting atomic.Bool
 
+	exitSync atomic.Int64
 	hot      []uint64
+	hit      []uint64
+	selState uint64
 	yieldsLeft atomic.Int64
 
 	decisions int
@@ -147,6 +152,8 @@ type RunCfg struct {
 	YieldBudget  int
 	StallMax     int // a task parked at a hot intra-op site may be stalled up to this many decisions
 	StartDelay   bool
+	Profile      bool   // record which intra-operation sites are executed
+	SelSeed      uint64 // seeds the order in which ready select cases are tried
 	IdleTimeout  time.Duration
 }
 
@@ -182,6 +189,10 @@ func InstallHooks() {
 		interp.VerifYield = hookYield
 		interp.VerifGo = hookGo
 		interp.VerifLock = hookLock
+		interp.VerifSelect = hookSelect
+		// one-time initialisations of the time package (sync.Once) must not
+		// happen first inside the scheduler, whose synchronisation is hidden.
+		time.NewTimer(time.Hour).Stop()
 	})
 }
 
@@ -240,8 +251,11 @@ func hookGo(site int, fn func()) {
 	parent := r.lookup(getg())
 	var t *Task
 	if parent != nil {
-		t = r.newTask(fmt.Sprintf("%s.%d", parent.Name, parent.spawned), fn)
+		t = r.newTask(parent.Name+"."+itoa(parent.spawned), fn)
 		parent.spawned++
+		if t != nil {
+			t.Route = parent.Route
+		}
 	}
 	raceEnable()
 	if t == nil {
@@ -271,6 +285,9 @@ func hookLock(mu any, write bool, site int) bool {
 		if r.aborting.Load() {
 			raceEnable()
 			panic(abortSentinel{})
+		}
+		if r.hit != nil && site >= 0 {
+			r.hit[site>>6] |= 1 << (uint(site) & 63)
 		}
 		hot := kind == kLock && r.isHot(site) && r.yieldsLeft.Load() > 0
 		if hot {
@@ -336,6 +353,46 @@ func unlock(mu any, write bool) {
 			(*m).RUnlock()
 		}
 	}
+}
+
+// hookSelect makes the choice among several ready select cases the simulator's:
+// cases are polled in an order rotated by the run's own PRNG; only if none is
+// ready does the task block in the real reflect.Select.
+//
+//go:norace
+func hookSelect(site int, cases []reflect.SelectCase) (int, reflect.Value, bool, bool) {
+	r := cur.Load()
+	if r == nil {
+		return 0, reflect.Value{}, false, false
+	}
+	raceDisable()
+	t := r.lookup(getg())
+	n := len(cases)
+	if t == nil || n == 0 {
+		raceEnable()
+		return 0, reflect.Value{}, false, false
+	}
+	start := int(splitmix(&r.selState) % uint64(n))
+	raceEnable()
+	def := -1
+	for i := 0; i < n; i++ {
+		j := (start + i) % n
+		c := cases[j]
+		if c.Dir == reflect.SelectDefault {
+			def = j
+			continue
+		}
+		if !c.Chan.IsValid() || c.Chan.IsNil() {
+			continue
+		}
+		if chosen, v, ok := reflect.Select([]reflect.SelectCase{c, {Dir: reflect.SelectDefault}}); chosen == 0 {
+			return j, v, ok, true
+		}
+	}
+	if def >= 0 {
+		return def, reflect.Value{}, false, true
+	}
+	return 0, reflect.Value{}, false, false
 }
 
 // CoopLock acquires a script-visible mutex cooperatively (DESIGN 3.5).
@@ -427,13 +484,20 @@ func (r *Run) newTask(name string, fn func()) *Task {
 // the bubble, by the scheduler goroutine before Loop or by a task.
 //
 //go:norace
-func (r *Run) Spawn(name string, fn func()) *Task {
+func (r *Run) Spawn(name string, fn func()) *Task { return r.SpawnRouted(name, nil, fn) }
+
+// SpawnRouted is Spawn with the task's route (workload instance) set before the
+// goroutine starts.
+//
+//go:norace
+func (r *Run) SpawnRouted(name string, route any, fn func()) *Task {
 	raceDisable()
 	t := r.newTask(name, fn)
 	raceEnable()
 	if t == nil {
 		return nil
 	}
+	t.Route = route
 	t.Client = true
 	go r.taskMain(t)
 	return t
@@ -463,6 +527,9 @@ func (r *Run) taskExit(t *Task) {
 			t.Panic = p
 		}
 	}
+	// visible to the detector: everything this task did happens before whoever
+	// reads the results after JoinEdge().
+	r.exitSync.Add(1)
 	raceDisable()
 	r.unregister(t.g)
 	if r.grant.Load() == t {
@@ -501,6 +568,9 @@ func (r *Run) hook(kind, site int) bool {
 		return true
 	}
 	hc := r.hookCalls.Add(1)
+	if r.hit != nil && site >= 0 && kind == kYield {
+		r.hit[site>>6] |= 1 << (uint(site) & 63)
+	}
 	granted := r.grant.Load() == t
 	preempt := false
 	if granted {
@@ -590,6 +660,10 @@ func NewRun(tape *Tape, cfg RunCfg) *Run {
 		}
 	}
 	r.yieldsLeft.Store(int64(cfg.YieldBudget))
+	if cfg.Profile {
+		r.hit = make([]uint64, (len(interp.VerifSites)+63)/64)
+	}
+	r.selState = cfg.SelSeed
 	r.Decisions = make([]Decision, 0, 256)
 	r.traceHash = 0xcbf29ce484222325
 	r.stepHash = 0xcbf29ce484222325
@@ -607,10 +681,7 @@ func (r *Run) eligible(t *Task) bool {
 		return false
 	}
 	if t.parkKind == kLockWait && t.lockMu != nil {
-		if !tryLock(t.lockMu, t.lockW) {
-			return false
-		}
-		unlock(t.lockMu, t.lockW)
+		return !mutexBusy(t.lockMu, t.lockW)
 	}
 	return true
 }
@@ -677,6 +748,23 @@ func (r *Run) Tasks() []*Task {
 	copy(out, r.tasks[:n])
 	return out
 }
+
+// JoinEdge gives the caller a happens-before edge from every exited task (the
+// scheduler's own synchronisation is hidden from the detector).
+func (r *Run) JoinEdge() int64 { return r.exitSync.Load() }
+
+// CurrentTask returns the calling goroutine's task, or nil.
+//
+//go:norace
+func (r *Run) CurrentTask() *Task {
+	raceDisable()
+	t := r.lookup(getg())
+	raceEnable()
+	return t
+}
+
+// Decision returns the number of scheduling decisions taken so far.
+func (r *Run) Decision() int { return r.decisions }
 
 // Exited reports whether the task has ended.
 func (t *Task) Exited() bool { return t.state.Load() == tExited }
@@ -912,10 +1000,36 @@ func (r *Run) describeBlocked() string {
 	for i := 0; i < n; i++ {
 		t := r.tasks[i]
 		if t.state.Load() != tExited {
-			s += fmt.Sprintf("%s(%s) ", t.Name, stateName(t.state.Load()))
+			s += t.Name + "(" + stateName(t.state.Load()) + ") "
 		}
 	}
 	return s
+}
+
+// itoa without fmt: fmt's sync.Pool must not be used while the detector ignores
+// synchronisation (it would hand one buffer to two goroutines "unsynchronised").
+//
+//go:norace
+func itoa(n int) string {
+	if n == 0 {
+		return "0"
+	}
+	var b [20]byte
+	i := len(b)
+	neg := n < 0
+	if neg {
+		n = -n
+	}
+	for n > 0 {
+		i--
+		b[i] = byte('0' + n%10)
+		n /= 10
+	}
+	if neg {
+		i--
+		b[i] = '-'
+	}
+	return string(b[i:])
 }
 
 func stateName(s int32) string {
@@ -965,6 +1079,20 @@ func (r *Run) Teardown() (left []string) {
 		}
 	}
 	return left
+}
+
+// ProfileSites returns the intra-operation sites executed by a profiling run.
+func (r *Run) ProfileSites() []int {
+	var out []int
+	for i := range interp.VerifSites {
+		if r.hit != nil && r.hit[i>>6]&(1<<(uint(i)&63)) != 0 {
+			s := &interp.VerifSites[i]
+			if s.Kind == "lock" || s.Op >= 0 || s.Kind == "operand" {
+				out = append(out, i)
+			}
+		}
+	}
+	return out
 }
 
 // SiteString renders a site for reports.
